@@ -34,7 +34,8 @@ type Exch struct {
 	Compress  bool  `json:"compress,omitempty"`
 	H         HPlan `json:"h"`
 	TimeoutMs int   `json:"timeout_ms"`
-	API       int   `json:"api,omitempty"` // 0 ExchangeWithConn, 1 ExchangeWithConnContext(ctx deadline), 2 WriteMsg+ReadMsg
+	ReadTOMs  int   `json:"read_to_ms,omitempty"` // Client.ReadTimeout / WriteTimeout are set as well, to another value: Client.Timeout overrides them
+	API       int   `json:"api,omitempty"`        // 0 ExchangeWithConn, 1 ExchangeWithConnContext(ctx deadline), 2 WriteMsg+ReadMsg
 }
 
 type Client struct {
@@ -172,6 +173,9 @@ func Gen(seed uint64, tier string) any {
 			}
 			e.H.ReplySize = pickSize(r, tier)
 			e.TimeoutMs = core.Pick(r, 100, 2000, 2000, 60000)
+			if core.Chance(r, 25) {
+				e.ReadTOMs = core.Pick(r, e.TimeoutMs/20+1, e.TimeoutMs*10)
+			}
 			c.Exch = append(c.Exch, e)
 		}
 		if c.Net == "udp" && core.Chance(r, 30) {
@@ -179,6 +183,13 @@ func Gen(seed uint64, tier string) any {
 		}
 		if c.Net == "udp" && sc.Homes > 1 {
 			c.Home = r.IntN(sc.Homes)
+		}
+		if c.Net == "udp" && core.Chance(r, 20) {
+			// handlers that answer from another task after ServeDNS has returned, while other datagrams are served
+			for j := range c.Exch {
+				c.Exch[j].H.Kind = core.Pick(r, "async", "async", "normal")
+				c.Exch[j].TimeoutMs = 60000
+			}
 		}
 		if c.Net == "tcp" && core.Chance(r, 20) {
 			c.Pipeline = true
@@ -665,6 +676,9 @@ func (c *clientTask) RunEvent(time.Time) {
 		ex.reqBytes = clone(b)
 		k.Unlock()
 		cl := &dns.Client{Timeout: time.Duration(e.TimeoutMs) * time.Millisecond, UDPSize: 65535}
+		if e.ReadTOMs > 0 {
+			cl.ReadTimeout, cl.WriteTimeout = time.Duration(e.ReadTOMs)*time.Millisecond, time.Duration(e.ReadTOMs)*time.Millisecond
+		}
 		start := time.Now()
 		deadline := start.Add(cl.Timeout)
 		rcvStart := 0
@@ -1200,7 +1214,8 @@ func (x *run) judgeRun(outcome string) {
 		}
 	}
 	classes := map[string]bool{}
-	for _, ex := range x.ex {
+	for _, tk := range core.SortedKeys(x.ex) {
+		ex := x.ex[tk]
 		if ex.net == "udp" {
 			if ex.reqBytes != nil && len(ex.reqBytes) <= sc.UDPSize {
 				res.Bump("oracle.X1_invocations_udp")
